@@ -57,12 +57,15 @@ poison_unknown :- poison_undefined_zzz(a).
 def atom_term(atom, negated=False):
     args = []
     for a in atom[1]:
-        args.append(Var(a) if gen.is_var(a) else Term(a))
+        if "(" in a:  # compound argument of a wrapper query, e.g. s(a) or s(Y)
+            args.append(Term.from_string(a))
+        else:
+            args.append(Var(a) if gen.is_var(a) else Term(a))
     t = Term(atom[0], *args)
     return -t if negated else t
 
 
-def candidates(prog, rng):
+def candidates(prog, rng, wrng=None):
     """Candidate queries (ground and non-ground) and evidence literals for a program."""
     sigs = sorted(set((h[0], len(h[1])) for c in prog["clauses"] for _p, h in c["heads"] if h[0] != "dom"))
     preds = dict(sigs)  # name -> arity (last one wins for overloaded names; `sigs` keeps all)
@@ -95,6 +98,22 @@ def candidates(prog, rng):
         B = rng.choice(ground_base)
         Q.append(["zzsq_%d" % len(Q), ["P"], "subquery(%s, P)" % gen.atom_str(A)])
         Q.append(["zzsqe_%d" % len(Q), ["P"], "subquery(%s, P, [%s])" % (gen.atom_str(A), gen.atom_str(B))])
+    # compound-term wrappers (drawn from a stream of their own, so that the rest of the case does not change): answers
+    # with structure, calls with a partially bound argument and, half of the time, an answer with a variable inside
+    # a compound term (zzw_p(s(_))), which the tabling cache must not index as if it were ground
+    unary_all = [n for n, a in sigs if a == 1 and n not in overloaded]
+    if wrng is not None and unary_all and ground_base and wrng.random() < 0.4:
+        n = wrng.choice(unary_all)
+        extra = gen.atom_str(wrng.choice(ground_base)) if wrng.random() < 0.6 else None
+        forms = [["s(%s)" % wrng.choice(consts)], ["Y"], ["s(Y)"], ["s(%s)" % wrng.choice(consts)]]
+        wrng.shuffle(forms)
+        if extra:  # a non-ground call would leave a variable in the query (NonGroundQuery): call it through a 0-ary goal
+            forms = [f for f in forms if "Y" not in f[0]] + [None]
+            wrng.shuffle(forms)
+        for args in forms[:wrng.randint(2, 4)]:
+            q = ["zzwa_%s" % n, [], extra] if args is None else ["zzw_%s" % n, args, extra]
+            if q not in Q:
+                Q.append(q)
     E = []
     for _ in range(3):
         n, ar = rng.choice(sigs)
@@ -113,6 +132,14 @@ def helper_clauses(Q):
             out.append("%s(L) :- findall(X, %s(X), L)." % (q[0], q[0][len("zzfa_"):]))
         elif q[0].startswith("zzsq") and len(q) > 2:
             out.append("%s(P) :- %s." % (q[0], q[2]))
+        elif q[0].startswith("zzw_") or q[0].startswith("zzwa_"):
+            n = q[0].split("_", 1)[1]
+            lines = ["zzw_%s(s(X)) :- %s(X)." % (n, n)]
+            if len(q) > 2 and q[2]:
+                lines.append("zzw_%s(s(_)) :- %s." % (n, q[2]))
+            if q[0].startswith("zzwa_"):
+                lines.append("zzwa_%s :- zzw_%s(_)." % (n, n))
+            out.extend(l for l in lines if l not in out)
     return "\n".join(out) + ("\n" if out else "")
 
 
@@ -590,7 +617,7 @@ def run_shard(shard):
             continue
         rng = stream(shard["seed"], "hist", i)
         prog = case["prog"]
-        Q, E = candidates(prog, rng)
+        Q, E = candidates(prog, rng, stream(shard["seed"], "wrap", i))
         tags = tags_for(prog, Q, E) or case["tags"]
         pool = ("frontier" if (set(tags) & open_tags) else "core") + ("+faults" if faults else "")
         nh = 3
